@@ -1413,6 +1413,206 @@ theorem deleteElems_step (pj : PJ) (pred : Nat → Bytes → Bool) (ks : List By
               by_cases ht : (t == typeNone) = true
               · simp only [if_pos ht]
               · simp only [if_neg ht, delFill]
-                cases pred n name <;> rfl
+
+theorem bind_eq_ok {α β : Type} {x : Res α} {f : α → Res β} {b : β} (h : (x >>= f) = .ok b) :
+    ∃ a, x = .ok a ∧ f a = .ok b := by
+  cases x with
+  | ok a => exact ⟨a, rfl, h⟩
+  | error e => cases h
+  | panic => cases h
+  | diverge => cases h
+
+/-- an iteration that ends the run successfully returns the document and the callback list unchanged -/
+theorem objStep_done_ok (pj : PJ) (ks : List Bytes) (tmp : Iter) (acc : Array (Bytes × Iter)) (pj' : PJ)
+    (its : Array (Bytes × Iter)) (h : objStep pj ks tmp acc = .done (.ok (pj', its))) : pj' = pj ∧ its = acc := by
+  unfold objStep at h
+  cases hr : tmp.advance pj with
+  | error _ => rw [hr] at h; simp [bindS] at h
+  | panic => rw [hr] at h; simp [bindS] at h
+  | diverge => rw [hr] at h; simp [bindS] at h
+  | ok r =>
+    obtain ⟨tmp1, typ⟩ := r
+    rw [hr] at h
+    simp only [bindS] at h
+    by_cases hc : (typ != typeString) = true ∨ tmp1.off + 1 ≥ tmp1.lim
+    · simp only [if_pos hc] at h
+      by_cases hn : (typ == typeNone) = true
+      · simp only [if_pos hn, OStep.done.injEq, Res.ok.injEq, Prod.mk.injEq] at h
+        exact ⟨h.1.symm, h.2.symm⟩
+      · simp only [if_neg hn, OStep.done.injEq] at h
+        cases h
+    · simp only [if_neg hc] at h
+      cases hrd : rd pj.tape tmp1.off with
+      | error _ => rw [hrd] at h; simp at h
+      | panic => rw [hrd] at h; simp at h
+      | diverge => rw [hrd] at h; simp at h
+      | ok len =>
+        rw [hrd] at h
+        simp only [] at h
+        cases hsb : stringByteAt pj tmp1.cur len with
+        | error _ => rw [hsb] at h; simp at h
+        | panic => rw [hsb] at h; simp at h
+        | diverge => rw [hsb] at h; simp at h
+        | ok name =>
+          rw [hsb] at h
+          simp only [] at h
+          cases hr2 : tmp1.advance pj with
+          | error _ => rw [hr2] at h; simp at h
+          | panic => rw [hr2] at h; simp at h
+          | diverge => rw [hr2] at h; simp at h
+          | ok r2 =>
+            obtain ⟨tmp2, t⟩ := r2
+            rw [hr2] at h
+            simp only [] at h
+            by_cases ht : (t == typeNone) = true
+            · simp only [if_pos ht, OStep.done.injEq, Res.ok.injEq, Prod.mk.injEq] at h
+              exact ⟨h.1.symm, h.2.symm⟩
+            · simp only [if_neg ht] at h
+              split at h <;> cases h
+
+/-- the callbacks already made are a prefix of the callbacks returned -/
+theorem deleteElems_prefix (pred : Nat → Bytes → Bool) (ks : List Bytes) : ∀ (mf : Nat) (pj : PJ) (tmp : Iter) (n : Nat)
+    (acc : Array (Bytes × Iter)) (pj' : PJ) (its : Array (Bytes × Iter)),
+    View.deleteElems pj pred ks tmp n acc mf = .ok (pj', its) →
+    acc.size ≤ its.size ∧ ∀ k, k < acc.size → its[k]? = acc[k]? := by
+  intro mf
+  induction mf with
+  | zero => intro pj tmp n acc pj' its h; rw [View.deleteElems] at h; cases h
+  | succ m ih =>
+    intro pj tmp n acc pj' its h
+    rw [deleteElems_step] at h
+    cases hs : objStep pj ks tmp acc with
+    | done r =>
+      rw [hs] at h
+      simp only [] at h
+      subst h
+      obtain ⟨_, rfl⟩ := objStep_done_ok _ _ _ _ _ _ hs
+      exact ⟨Nat.le_refl _, fun _ _ => rfl⟩
+    | skip tmp2 =>
+      rw [hs] at h
+      exact ih _ _ _ _ _ _ h
+    | call name tmp1 tmp2 =>
+      rw [hs] at h
+      simp only [] at h
+      obtain ⟨pj2, _, h2⟩ := bind_eq_ok h
+      obtain ⟨k1, k2⟩ := ih _ _ _ _ _ _ h2
+      rw [Array.size_push] at k1 k2
+      refine ⟨by omega, fun k hk => ?_⟩
+      rw [k2 k (by omega), Array.getElem?_push_lt hk]
+      simp [hk]
+
+/-- two predicates that give the same answers on the callbacks actually made give the same run -/
+theorem deleteElems_congr_run (pred1 pred2 : Nat → Bytes → Bool) (ks : List Bytes) : ∀ (mf : Nat) (pj : PJ) (tmp : Iter)
+    (acc : Array (Bytes × Iter)) (pj' : PJ) (its : Array (Bytes × Iter)),
+    View.deleteElems pj pred1 ks tmp acc.size acc mf = .ok (pj', its) →
+    (∀ k (h : k < its.size), acc.size ≤ k → pred2 k its[k].1 = pred1 k its[k].1) →
+    View.deleteElems pj pred2 ks tmp acc.size acc mf = .ok (pj', its) := by
+  intro mf
+  induction mf with
+  | zero => intro pj tmp acc pj' its h; rw [View.deleteElems] at h; cases h
+  | succ m ih =>
+    intro pj tmp acc pj' its h hp
+    rw [deleteElems_step] at h ⊢
+    cases hs : objStep pj ks tmp acc with
+    | done r => rw [hs] at h; exact h
+    | skip tmp2 =>
+      rw [hs] at h
+      exact ih _ _ _ _ _ h hp
+    | call name tmp1 tmp2 =>
+      rw [hs] at h
+      simp only [] at h ⊢
+      obtain ⟨pj2, h1, h2⟩ := bind_eq_ok h
+      have h2' := h2
+      rw [← Array.size_push (xs := acc) (name, tmp2)] at h2'
+      obtain ⟨k1, k2⟩ := deleteElems_prefix _ _ _ _ _ _ _ _ _ h2
+      rw [Array.size_push] at k1 k2
+      have hlt : acc.size < its.size := by omega
+      have hit : its[acc.size] = (name, tmp2) := by
+        have := k2 acc.size (by omega)
+        rw [Array.getElem?_eq_getElem hlt] at this
+        simpa using this
+      have hq : pred2 acc.size name = pred1 acc.size name := by
+        have := hp acc.size hlt (Nat.le_refl _)
+        rw [hit] at this
+        exact this
+      rw [hq, h1]
+      simp only [Res.bind_ok]
+      have := ih pj2 tmp2 (acc.push (name, tmp2)) pj' its h2'
+        (fun k hk hge => hp k hk (by rw [Array.size_push] at hge; omega))
+      rw [Array.size_push] at this
+      exact this
+
+/-- the name handed to the `k`-th callback of a run -/
+def nameAt (its : Array (Bytes × Iter)) (k : Nat) : Bytes := (its[k]?.map (·.1)).getD #[]
+
+/-- `View.deleteElems pj pred …` IS the run with the index-only predicate read off its own callback list -/
+theorem deleteElems_index_only (pj : PJ) (pred : Nat → Bytes → Bool) (ks : List Bytes) (tmp : Iter) (mf : Nat)
+    (pj' : PJ) (its : Array (Bytes × Iter)) (h : View.deleteElems pj pred ks tmp 0 #[] mf = .ok (pj', its)) :
+    View.deleteElems pj (fun k _ => pred k (nameAt its k)) ks tmp 0 #[] mf = .ok (pj', its) := by
+  apply deleteElems_congr_run pred _ ks mf pj tmp #[] pj' its h
+  intro k hk _
+  simp [nameAt, hk]
+
+/-- index-only predicates that agree from the current index on give the same run (whatever its outcome) -/
+theorem deleteElems_congr_idx (q1 q2 : Nat → Bool) (ks : List Bytes) : ∀ (mf : Nat) (pj : PJ) (tmp : Iter) (n : Nat)
+    (acc : Array (Bytes × Iter)), (∀ k, n ≤ k → q1 k = q2 k) →
+    View.deleteElems pj (fun k _ => q1 k) ks tmp n acc mf = View.deleteElems pj (fun k _ => q2 k) ks tmp n acc mf := by
+  intro mf
+  induction mf with
+  | zero => intro pj tmp n acc _; rw [View.deleteElems, View.deleteElems]
+  | succ m ih =>
+    intro pj tmp n acc hq
+    rw [deleteElems_step, deleteElems_step]
+    cases objStep pj ks tmp acc with
+    | done r => rfl
+    | skip tmp2 => exact ih _ _ _ _ hq
+    | call name tmp1 tmp2 =>
+      simp only [hq n (Nat.le_refl _)]
+      cases delFill pj (q2 n) tmp1 tmp2 with
+      | ok pj2 => simp only [Res.bind_ok]; exact ih _ _ _ _ (fun k hk => hq k (by omega))
+      | error _ => rfl
+      | panic => rfl
+      | diverge => rfl
+
+/-- every run of the model — whatever its outcome — is the run of some index-only predicate -/
+theorem deleteElems_exists_idx (pred : Nat → Bytes → Bool) (ks : List Bytes) : ∀ (mf : Nat) (pj : PJ) (tmp : Iter)
+    (n : Nat) (acc : Array (Bytes × Iter)),
+    ∃ q : Nat → Bool, View.deleteElems pj (fun k _ => q k) ks tmp n acc mf = View.deleteElems pj pred ks tmp n acc mf := by
+  intro mf
+  induction mf with
+  | zero => intro pj tmp n acc; exact ⟨fun _ => true, by rw [View.deleteElems, View.deleteElems]⟩
+  | succ m ih =>
+    intro pj tmp n acc
+    cases hs : objStep pj ks tmp acc with
+    | done r => exact ⟨fun _ => true, by rw [deleteElems_step, deleteElems_step, hs]⟩
+    | skip tmp2 =>
+      obtain ⟨q, hq⟩ := ih pj tmp2 n acc
+      exact ⟨q, by rw [deleteElems_step, deleteElems_step, hs]; exact hq⟩
+    | call name tmp1 tmp2 =>
+      cases hd : delFill pj (pred n name) tmp1 tmp2 with
+      | ok pj2 =>
+        obtain ⟨q', hq'⟩ := ih pj2 tmp2 (n + 1) (acc.push (name, tmp2))
+        refine ⟨fun k => if k = n then pred n name else q' k, ?_⟩
+        rw [deleteElems_step, deleteElems_step, hs]
+        simp only [if_true, hd, Res.bind_ok]
+        rw [← hq']
+        exact deleteElems_congr_idx _ _ ks m pj2 tmp2 (n + 1) _ (fun k hk => by
+          have : ¬ k = n := by omega
+          simp [this])
+      | error e =>
+        refine ⟨fun _ => pred n name, ?_⟩
+        rw [deleteElems_step, deleteElems_step, hs]
+        simp only [hd]
+        rfl
+      | panic =>
+        refine ⟨fun _ => pred n name, ?_⟩
+        rw [deleteElems_step, deleteElems_step, hs]
+        simp only [hd]
+        rfl
+      | diverge =>
+        refine ⟨fun _ => pred n name, ?_⟩
+        rw [deleteElems_step, deleteElems_step, hs]
+        simp only [hd]
+        rfl
 
 end SJ.GoDelete
